@@ -1,5 +1,5 @@
 (* C10 -- `include.  Property theorems only; proofs live in PP/IgnoreFacts.v, PP/EvalFacts.v. *)
-From SV Require Import Eval EvalFacts IgnoreFacts.
+From SV Require Import Eval EvalFacts IgnoreFacts IncludeFacts.
 
 (* Which file an `include names: the name as given when it is absolute or exists relative to
    the working directory, otherwise the first include path that contains it, otherwise the
@@ -38,3 +38,29 @@ Example C10_example :
                  [[105;48]; [105;49]; [105;50]] 64 in
   resolve_path c [120] = [105;49;47;120] /\ resolve_path c [121] = [121] /\ resolve_path c [122] = [122].
 Proof. vm_compute. repeat split; reflexivity. Qed.
+
+(* The splice.  An `include "name" met in active text (nothing else on its line): the file the name
+   resolves to is preprocessed with the define table in force at the directive, one include level
+   deeper, with resolve depth 0; if that succeeds its whole output is appended to the output produced
+   so far (as one merged segment, so origins of its bytes point into the included files) and the table
+   it returns -- definitions AND undefinitions made inside -- is the table from here on; if it fails
+   the error is wrapped once in Include; nothing else of the state changes but bookkeeping. *)
+Theorem C10_include_splices : forall c rec s p strip rdepth idepth t inner sym kw lit l fl x text ops nd,
+  children t = [inner] -> kind inner = K_IncludeCompilerDirectiveDoubleQuote -> children inner = [sym; kw; lit] ->
+  node_locate t = ROk l -> first_leaf lit = Some fl ->
+  (match s_item x with Some i => i =? l_line l | None => false end) = false ->
+  pp_file c rec (resolve_path c (trim_matches 34 (lstr s fl))) (s_defs x) false strip (idepth + 1) = ROk (text, ops, nd) ->
+  exists x', include_enter c rec s p strip rdepth idepth t x = ROk x' /\
+             s_out x' = text :: s_out x /\ s_ops x' = Merge ops :: s_ops x /\ s_defs x' = nd.
+Proof. exact include_literal_ok. Qed.
+
+Theorem C10_include_error_wrapped : forall c rec s p strip rdepth idepth t inner sym kw lit l fl x e,
+  children t = [inner] -> kind inner = K_IncludeCompilerDirectiveDoubleQuote -> children inner = [sym; kw; lit] ->
+  node_locate t = ROk l -> first_leaf lit = Some fl ->
+  (match s_item x with Some i => i =? l_line l | None => false end) = false ->
+  pp_file c rec (resolve_path c (trim_matches 34 (lstr s fl))) (s_defs x) false strip (idepth + 1) = RErr e ->
+  include_enter c rec s p strip rdepth idepth t x = RErr (EInclude e).
+Proof.
+  intros c rec s p strip rdepth idepth t inner sym kw lit l fl x e Ht Hk Hi Hl Hf Hline Hp.
+  rewrite (include_literal c rec s p strip rdepth idepth t inner sym kw lit l fl x Ht Hk Hi Hl Hf Hline). now rewrite Hp.
+Qed.
